@@ -43,6 +43,27 @@ Proof.
   rewrite IH, Hrow. reflexivity.
 Qed.
 
+(** a factor keeps its level for [sustain] trials (trial groups start at multiples of the sustain count) *)
+Definition held (fb : flat) (s : tseq) (f : nat) : bool :=
+  forallb (fun t => cell_eqb (get_cell s f (t / sustain_of fb f * sustain_of fb f)) (get_cell s f t)) (seq 0 (fl_trials fb)).
+Definition sustain_held (fb : flat) (s : tseq) : bool :=
+  forallb (fun f => if 1 <? sustain_of fb f then held fb s f else true) (seq 0 (length (fl_design fb))).
+
+Lemma cell_eqb_refl x : cell_eqb x x = true.
+Proof. destruct x; cbn; [apply Nat.eqb_refl | reflexivity]. Qed.
+
+Lemma held_one fb s f : sustain_of fb f = 1 -> held fb s f = true.
+Proof.
+  intros E. unfold held. rewrite E. apply forallb_forall. intros t _. rewrite Nat.div_1_r, Nat.mul_1_r. apply cell_eqb_refl.
+Qed.
+
+Lemma forallb_combine_fst {A B} (g : A -> bool) (xs : list A) (ys : list B) : length ys = length xs ->
+  forallb (fun p => g (fst p)) (combine xs ys) = forallb g xs.
+Proof.
+  revert ys. induction xs as [|x t IH]; intros [|y ys] H; cbn in *; try discriminate; [reflexivity|].
+  rewrite IH by lia. reflexivity.
+Qed.
+
 Section F0S.
 Variable fb : flat.
 Hypothesis HF : frag2 fb = true.
@@ -53,14 +74,72 @@ Local Notation q := (f0_q fb).
 Local Notation prod := (f0_cprod fb).
 Local Notation S0 := (code_sem fb).
 
-Lemma f0_sustain_of f : sustain_of fb f = 1.
+(** [sustain_of]: the sustain count of the last crossing that contains the factor, 1 outside every crossing *)
+Lemma sustain_fold (f : nat) (l : list (list nat * nat)) : forall acc,
+  let r := fold_left (fun acc cs => if existsb (Nat.eqb f) (fst cs) then snd cs else acc) l acc in
+  r = acc \/ exists cs, In cs l /\ In f (fst cs) /\ r = snd cs.
 Proof.
-  unfold sustain_of.
-  assert (G : forall (l : list (list nat * nat)) acc, (forall p, In p l -> snd p = 1) -> acc = 1 ->
-              fold_left (fun acc cs => if existsb (Nat.eqb f) (fst cs) then snd cs else acc) l acc = 1).
-  { induction l as [|p t IH]; intros acc H Ha; [exact Ha|]. cbn [fold_left]. apply IH; [intros x Hx; apply H; right; exact Hx|].
-    destruct (existsb (Nat.eqb f) (fst p)); [apply H; left; reflexivity | exact Ha]. }
-  apply G; [|reflexivity]. intros [ci su] Hp. cbn [snd]. apply in_combine_r in Hp. apply (f0_sustains fb (f0_unpack fb HF)). exact Hp.
+  induction l as [|p t IH]; intros acc; cbn [fold_left]; [left; reflexivity|].
+  destruct (IH (if existsb (Nat.eqb f) (fst p) then snd p else acc)) as [E | (cs & Hin & Hf & E)].
+  - destruct (existsb (Nat.eqb f) (fst p)) eqn:Ex.
+    + right. exists p. split; [left; reflexivity|]. split; [|exact E].
+      apply existsb_exists in Ex. destruct Ex as [x [Hx Ex]]. apply Nat.eqb_eq in Ex. subst. exact Hx.
+    + left. exact E.
+  - right. exists cs. split; [right; exact Hin | split; assumption].
+Qed.
+
+Lemma f0_sustain_cases f : sustain_of fb f = 1 \/
+  exists ci su, In (ci, su) (combine (fl_crossings fb) (fl_sustains fb)) /\ In f ci /\ sustain_of fb f = su.
+Proof.
+  unfold sustain_of. destruct (sustain_fold f (combine (fl_crossings fb) (fl_sustains fb)) 1) as [E | ([ci su] & Hin & Hf & E)].
+  - left. exact E.
+  - right. exists ci, su. cbn [fst snd] in *. split; [exact Hin | split; assumption].
+Qed.
+
+Lemma f0_sustain_pos f : 0 < sustain_of fb f.
+Proof.
+  destruct (f0_sustain_cases f) as [E | (ci & su & Hin & _ & E)]; [lia|]. rewrite E.
+  apply (f0_sustains_pos fb (f0_unpack fb HF)). eapply in_combine_r. exact Hin.
+Qed.
+
+Lemma f0_sustain_div f : fl_trials fb mod sustain_of fb f = 0.
+Proof.
+  destruct (f0_sustain_cases f) as [E | (ci & su & Hin & _ & E)]; rewrite E; [apply Nat.mod_1_r|].
+  apply (f0_sustain_div fb (f0_unpack fb HF)). eapply in_combine_r. exact Hin.
+Qed.
+
+(** a factor outside [act_design] is in no crossing *)
+Lemma f0_sustain_not_act f : ~ In f (fl_act fb) -> sustain_of fb f = 1.
+Proof.
+  intros Hn. destruct (f0_sustain_cases f) as [E | (ci & su & Hin & Hf & _)]; [exact E|]. exfalso. apply Hn.
+  apply (f0_cact fb (f0_unpack fb HF) ci f); [eapply in_combine_l; exact Hin | exact Hf].
+Qed.
+
+Lemma f0_sustain_main f : In f c -> sustain_of fb f = 1.
+Proof. apply (f0_main_sustain_of fb (f0_unpack fb HF)). Qed.
+
+(** with one crossing only nothing is sustained *)
+Lemma f0_sustain_single f : length (fl_crossings fb) = 1 -> sustain_of fb f = 1.
+Proof.
+  intros Hone. destruct (f0_sustain_cases f) as [E | (ci & su & Hin & _ & E)]; [exact E|]. rewrite E.
+  pose proof (f0_main_lt fb (f0_unpack fb HF)) as Hlt. pose proof (f0_main_sustain fb (f0_unpack fb HF)) as Hs.
+  pose proof (f0_sustains_len fb (f0_unpack fb HF)) as Hl. rewrite Hone in Hlt, Hl.
+  assert (E0 : main_idx fb = 0) by lia. rewrite E0 in Hs.
+  destruct (fl_sustains fb) as [|x [|? ?]]; try discriminate. cbn in Hs. inversion Hs; subst x.
+  apply in_combine_r in Hin. destruct Hin as [H | []]. symmetry. exact H.
+Qed.
+
+(** without a sustained crossing nothing is to be held *)
+Lemma f0_sustain_held_trivial s : (forall x, In x (fl_sustains fb) -> x = 1) -> sustain_held fb s = true.
+Proof.
+  intros H1. unfold sustain_held. apply forallb_forall. intros f _.
+  destruct (f0_sustain_cases f) as [E | (ci & su & Hin & _ & E)]; rewrite E; [reflexivity|].
+  rewrite (H1 su (in_combine_r _ _ _ _ Hin)). reflexivity.
+Qed.
+
+Lemma f0_sustain_derived f : In f (fl_act fb) -> is_derived fb f = true -> sustain_of fb f = 1.
+Proof.
+  intros Hf Hd. destruct (f0_act_kind fb HF f Hf) as [H | [Hc _]]; [congruence|]. apply f0_sustain_main. exact Hc.
 Qed.
 
 Lemma f0_sem_trials : s_trials S0 = fl_trials fb.
@@ -95,11 +174,11 @@ Qed.
 
 (** the factors of [act_design] are plain, or within-trial derived factors of the sampled crossing *)
 Lemma f0_sem_factor f fd : In f (fl_act fb) -> nth_error (s_factors S0) f = Some fd ->
-  f < n /\ f_nlevels fd = nlevels fb f /\ f_sustain fd = 1 /\ (is_derived fb f = false -> f_derived fd = None).
+  f < n /\ f_nlevels fd = nlevels fb f /\ f_sustain fd = sustain_of fb f /\ (is_derived fb f = false -> f_derived fd = None).
 Proof.
   intros Hact H. destruct (f0_sem_factor_at f fd H) as (Hf & d & Hd & ->). split; [exact Hf|].
   unfold CodeSem.code_factor. cbn [f_nlevels f_sustain f_derived].
-  split; [unfold nlevels; rewrite Hd; reflexivity|]. split; [apply f0_sustain_of|].
+  split; [unfold nlevels; rewrite Hd; reflexivity|]. split; [reflexivity|].
   intros Hnd. unfold is_derived in Hnd. rewrite Hd in Hnd. destruct (ff_window d); [discriminate | reflexivity].
 Qed.
 
@@ -130,7 +209,7 @@ Proof.
   apply andb_prop in Hi. destruct Hi as [_ Hwd].
   apply Nat.eqb_eq in Hst. apply Nat.eqb_eq in Hsd. apply Nat.eqb_eq in Hwd.
   exists d, w. split; [exact Hd|]. split; [exact Ew|]. unfold CodeSem.code_factor. cbn [f_nlevels f_sustain f_derived].
-  split; [unfold nlevels; rewrite Hd; reflexivity|]. split; [apply f0_sustain_of|]. rewrite Ew, Hst, Hsd, Hwd.
+  split; [unfold nlevels; rewrite Hd; reflexivity|]. split; [apply f0_sustain_not_act; exact Hact|]. rewrite Ew, Hst, Hsd, Hwd.
   split; [reflexivity|]. split; [|exact Hex]. intros x Hx. rewrite forallb_forall in Hdeps. apply (isact_In fb HF). apply Hdeps. exact Hx.
 Qed.
 
@@ -305,24 +384,99 @@ Qed.
 Lemma f0_code_crossing i ci : In ci (fl_crossings fb) ->
   CodeSem.code_crossing fb i ci =
   {| c_factors := ci; c_first := 0; c_chunk := nth i (fl_sizes fb) 0 * cw_of fb ci;
-     c_mult := map (fun ls => (ls, combo_weight fb (combine ci ls) * cw_of fb ci)) (allowed_combos2 fb ci) |}.
+     c_mult := map (fun ls => (ls, combo_weight fb (combine ci ls) * sustain_of fb (hd 0 ci) * cw_of fb ci)) (allowed_combos2 fb ci) |}.
 Proof.
   intros Hci. unfold CodeSem.code_crossing. rewrite (f0_crossing_weight_of ci Hci), f0_preamble_size.
   f_equal. rewrite f0_compile_combos_of. rewrite map_map. apply map_ext_in. intros ls Hls.
-  rewrite f0_compile_combination_weight, f0_sustain_of. rewrite Nat.mul_1_r.
+  rewrite f0_compile_combination_weight.
   rewrite map_snd_combine; [reflexivity|]. unfold allowed_combos2 in Hls. apply filter_In in Hls. destruct Hls as [Hls _].
   rewrite (product_length_elem _ _ Hls). rewrite map_length. reflexivity.
 Qed.
 
-(** the crossings after the first *)
-Definition f0_ocrossings : list dcrossing := CodeSem.code_crossings fb 1 (tl (fl_crossings fb)).
+(** the crossings, numbered; all but the sampled one *)
+Definition f0_icrossings : list (nat * list nat) := combine (seq 0 (length (fl_crossings fb))) (fl_crossings fb).
+Definition f0_ocrossings : list dcrossing :=
+  flat_map (fun ic => if fst ic =? main_idx fb then [] else [CodeSem.code_crossing fb (fst ic) (snd ic)]) f0_icrossings.
 
-Lemma f0_sem_crossings : s_crossings S0 = f0_crossing :: f0_ocrossings.
+Lemma code_crossings_combine cs : forall i0,
+  CodeSem.code_crossings fb i0 cs = map (fun ic => CodeSem.code_crossing fb (fst ic) (snd ic)) (combine (seq i0 (length cs)) cs).
 Proof.
-  unfold code_sem, CodeSem.code_sem. cbn [s_crossings]. rewrite (f0_crossings fb (f0_unpack fb HF)) at 1.
-  cbn [CodeSem.code_crossings]. f_equal.
-  rewrite f0_code_crossing by (rewrite (f0_crossings fb (f0_unpack fb HF)); left; reflexivity).
-  unfold f0_crossing. rewrite (f0_cw_of_main fb HF). rewrite (f0_sizes fb (f0_unpack fb HF)). cbn [nth]. reflexivity.
+  induction cs as [|ci t IH]; intros i0; [reflexivity|]. cbn [CodeSem.code_crossings length seq combine map fst snd].
+  rewrite IH. reflexivity.
+Qed.
+
+Lemma f0_sem_crossings_all : s_crossings S0 = map (fun ic => CodeSem.code_crossing fb (fst ic) (snd ic)) f0_icrossings.
+Proof. unfold code_sem, CodeSem.code_sem. cbn [s_crossings]. apply code_crossings_combine. Qed.
+
+Lemma forallb_split_key {A B} (P : B -> bool) (g : nat * A -> B) (l : list (nat * A)) i x :
+  NoDup (map fst l) -> In (i, x) l ->
+  forallb P (map g l) = P (g (i, x)) && forallb P (flat_map (fun ic => if fst ic =? i then [] else [g ic]) l).
+Proof.
+  induction l as [|[j y] t IH]; intros Hnd Hin; [destruct Hin|]. cbn [map fst] in Hnd. inversion Hnd as [|? ? Hj Hnd']; subst.
+  cbn [map forallb flat_map fst]. destruct Hin as [E | Hin].
+  - inversion E; subst. rewrite Nat.eqb_refl. cbn [app]. f_equal.
+    assert (G : forall l', ~ In i (map fst l') -> flat_map (fun ic : nat * A => if fst ic =? i then [] else [g ic]) l' = map g l').
+    { induction l' as [|[k z] t' IH']; intros Hn; [reflexivity|]. cbn [flat_map map fst] in *.
+      replace (k =? i) with false by (symmetry; apply Nat.eqb_neq; intros E'; apply Hn; left; exact E').
+      cbn [app]. f_equal. apply IH'. intros H. apply Hn. right. exact H. }
+    rewrite (G t Hj). reflexivity.
+  - assert (Hne : j <> i). { intros E. subst. apply Hj. apply in_map_iff. exists (i, x). split; [reflexivity | exact Hin]. }
+    replace (j =? i) with false by (symmetry; apply Nat.eqb_neq; exact Hne). cbn [app forallb].
+    rewrite (IH Hnd' Hin). destruct (P (g (j, y))), (P (g (i, x))); reflexivity.
+Qed.
+
+Lemma f0_icrossings_keys : map fst f0_icrossings = seq 0 (length (fl_crossings fb)).
+Proof. unfold f0_icrossings. apply map_fst_combine. rewrite seq_length. reflexivity. Qed.
+
+Lemma f0_icrossings_In i ci : In (i, ci) f0_icrossings <-> nth_error (fl_crossings fb) i = Some ci.
+Proof.
+  unfold f0_icrossings. split.
+  - intros H. apply In_nth_error in H. destruct H as [j Hj]. apply nth_error_combine in Hj. destruct Hj as [H1 H2].
+    assert (Hlt : j < length (seq 0 (length (fl_crossings fb)))) by (apply nth_error_Some; congruence).
+    rewrite seq_length in Hlt. rewrite (nth_error_nth' _ 0) in H1 by (rewrite seq_length; exact Hlt).
+    rewrite seq_nth in H1 by exact Hlt. inversion H1; subst. exact H2.
+  - intros H. assert (Hlt : i < length (fl_crossings fb)) by (apply nth_error_Some; congruence).
+    apply nth_error_In with (n := i). rewrite (nth_error_nth' _ (0, [])) by (rewrite combine_length, seq_length; lia).
+    rewrite combine_nth by (rewrite seq_length; reflexivity). rewrite seq_nth by exact Hlt.
+    rewrite (nth_error_nth _ _ [] H). reflexivity.
+Qed.
+
+(** the coded form of the sampled crossing *)
+Lemma f0_code_main : CodeSem.code_crossing fb (main_idx fb) c = f0_crossing.
+Proof.
+  rewrite f0_code_crossing by apply (f0_c_in fb HF). unfold f0_crossing. rewrite (f0_cw_of_main fb HF).
+  rewrite (nth_error_nth _ _ 0 (f0_sizes fb (f0_unpack fb HF))). f_equal.
+  apply map_ext_in. intros ls Hls.
+  destruct (f0_size_ok fb (f0_unpack fb HF) _ _ _ _ (f0_crossings fb (f0_unpack fb HF)) (f0_sizes fb (f0_unpack fb HF))
+              (f0_main_sustain fb (f0_unpack fb HF))) as (_ & _ & _ & Hsu).
+  rewrite Hsu, Nat.mul_1_r. reflexivity.
+Qed.
+
+(** a check over all crossings: the sampled one and the others *)
+Lemma f0_crossings_split (P : dcrossing -> bool) :
+  forallb P (s_crossings S0) = P f0_crossing && forallb P f0_ocrossings.
+Proof.
+  rewrite f0_sem_crossings_all.
+  rewrite (forallb_split_key P (fun ic => CodeSem.code_crossing fb (fst ic) (snd ic)) f0_icrossings (main_idx fb) c).
+  - cbn [fst snd]. rewrite f0_code_main. reflexivity.
+  - rewrite f0_icrossings_keys. apply seq_NoDup.
+  - apply f0_icrossings_In. apply (f0_crossings fb (f0_unpack fb HF)).
+Qed.
+
+Lemma f0_ocrossings_In cr : In cr f0_ocrossings ->
+  exists i ci, nth_error (fl_crossings fb) i = Some ci /\ i <> main_idx fb /\ cr = CodeSem.code_crossing fb i ci.
+Proof.
+  unfold f0_ocrossings. intros H. apply in_flat_map in H. destruct H as [[i ci] [Hin H]]. cbn [fst snd] in H.
+  destruct (i =? main_idx fb) eqn:E; [destruct H|]. destruct H as [H | []]. apply Nat.eqb_neq in E.
+  exists i, ci. split; [apply f0_icrossings_In; exact Hin|]. split; [exact E | symmetry; exact H].
+Qed.
+
+(** one crossing only: there is no other *)
+Lemma f0_ocrossings_single : length (fl_crossings fb) = 1 -> f0_ocrossings = [].
+Proof.
+  intros Hone. pose proof (f0_main_lt fb (f0_unpack fb HF)) as Hlt. rewrite Hone in Hlt.
+  unfold f0_ocrossings, f0_icrossings. rewrite Hone. destruct (fl_crossings fb) as [|c0 [|? ?]]; try discriminate.
+  cbn [seq combine flat_map fst]. replace (main_idx fb) with 0 by lia. reflexivity.
 Qed.
 
 End F0S.
